@@ -634,6 +634,34 @@ class SymCtx:
             lb = z.IntVal(lb)
         return SInt(z.If(_b(c), la, lb))
 
+    def alternative_assignments(self):
+        """further witnesses of the current (satisfiable) constraints in which as many integer variables as possible lie beyond 256 resp. 2^16.
+        Proxies cannot model object identity: `a is b` on two symbolic integers is decided by the interpreter, not the solver, and CPython shares
+        int objects only up to 256 - a failure that depends on identity is real only for large values. The runner replays these when the first
+        (smallest) witness does not reproduce."""
+        z = z3()
+        alts = []
+        try:
+            for bound in (256, 1 << 16):
+                self.s.push()
+                n = 0
+                for name, v in self.vars.items():
+                    if z.is_bool(v):
+                        continue
+                    c = z.UGT(v, bound) if z.is_bv(v) else (v > bound)
+                    if str(self.s.check(c)) == 'sat':
+                        self.s.add(c)
+                        n += 1
+                    self.queries += 1
+                if n and str(self.s.check()) == 'sat':
+                    a = self.model_assignment()
+                    if a not in alts:
+                        alts.append(a)
+                self.s.pop()
+        except Exception:
+            pass
+        return alts
+
     def model_assignment(self):
         m = self.s.model()
         ints = {}
@@ -723,6 +751,7 @@ class Result:
         self.wall_s = 0.0
         self.checks = 0           # checks proved valid
         self.cex = None           # assignment
+        self.cex_alts = []        # further assignments of the same path with large integer values
         self.failed = None        # label of the failing check
         self.detail = ''
         self.samples = []
@@ -855,6 +884,7 @@ def _one_path(run, plan, timeout_ms, want_sample):
                 out['status'] = 'cex'
                 out['failed'] = bad
                 out['cex'] = ctx.model_assignment()
+                out['cex_alts'] = ctx.alternative_assignments()
             elif sym:
                 neg = z.Not(z.And(*[c for _, c in sym]))
                 r = ctx._check(neg)
@@ -868,6 +898,7 @@ def _one_path(run, plan, timeout_ms, want_sample):
                     ctx.s.add(neg)
                     ctx._check()
                     out['cex'] = ctx.model_assignment()
+                    out['cex_alts'] = ctx.alternative_assignments()
                 else:
                     out['checks'] += len(sym)
             out['checks'] += sum(1 for _, c in ctx.checks if isinstance(c, bool) and c)
@@ -933,6 +964,7 @@ def explore(run, max_paths=None, max_seconds=None, n_samples=2, timeout_ms=60000
                 res.samples.append(o['sample'])
         if o['status'] != 'ok':
             res.status, res.failed, res.cex, res.detail = o['status'], o['failed'], o['cex'], o['detail']
+            res.cex_alts = o.get('cex_alts') or []
             break
         plan = list(o['trail'])
         while plan and not (plan[-1][0] and plan[-1][1]):
